@@ -187,7 +187,32 @@ def impl_json(nodes, edges, ext="json"):
     return dict(graph=canon_meta(meta), labelled=labelled)
 
 
-def impl_genseq(args, itp):
+def cli_cwd():
+    """a working directory for command-level runs that holds DECOYS named like the files the command is given by
+    absolute path (the program must not pick up what lies in the process working directory)"""
+    cwd = workdir() / "cwd"
+    if not cwd.exists():
+        cwd.mkdir()
+        (cwd / "out.json").write_text('{"decoy": true}')
+        (cwd / "blocks.itp").write_text("[ moleculetype ]\nDECOY 1\n[ atoms ]\n1 P 1 DEC A 1 0.0\n")
+        (cwd / "s.txt").write_text("DECOY DECOY\n")
+        (cwd / "s.fasta").write_text(">DNA\nGGGG\n")
+        (cwd / "s.ig").write_text("; DNA\nx\nGGGG1\n")
+        (cwd / "out.itp").write_text("; decoy\n")
+    return cwd
+
+
+def run_cli(argv):
+    import subprocess
+    import sys
+    proc = subprocess.run([sys.executable, os.path.join(common.REPO, "bin", "polyply")] + argv, cwd=str(cli_cwd()),
+                          stdout=subprocess.PIPE, stderr=subprocess.STDOUT, text=True, timeout=300,
+                          env=dict(os.environ, PYTHONPATH=common.REPO))
+    if proc.returncode != 0:
+        raise RuntimeError("polyply %s exited %s: %s" % (argv[0], proc.returncode, proc.stdout[-200:]))
+
+
+def impl_genseq(args, itp, cli=False):
     """the real gen_seq writing a real file; then the real reader of gen_params on that file"""
     module = importlib.import_module("polyply.src.gen_seq")
     from polyply.src.meta_molecule import MetaMolecule
@@ -199,10 +224,20 @@ def impl_genseq(args, itp):
         if itp is not None:
             ipath.write_text(itp)
             inpath = [ipath]
-        module.gen_seq("mol", out, args["seq"], inpath=inpath, macro_strings=list(args["macro_strings"]),
-                       from_file=list(args["from_file"]) if args["from_file"] else None,
-                       connects=list(args["connects"]), modifications=list(args["modifications"]),
-                       tags=list(args["tags"]))
+        if cli:
+            argv = ["gen_seq", "-name", "mol", "-o", str(out), "-seq"] + list(args["seq"])
+            for flag, key in (("-from_string", "macro_strings"), ("-from_file", "from_file"), ("-connects", "connects"),
+                              ("-modf_ter", "modifications"), ("-label", "tags")):
+                if args[key]:
+                    argv += [flag] + list(args[key])
+            if inpath:
+                argv += ["-f", str(ipath)]
+            run_cli(argv)
+        else:
+            module.gen_seq("mol", out, args["seq"], inpath=inpath, macro_strings=list(args["macro_strings"]),
+                           from_file=list(args["from_file"]) if args["from_file"] else None,
+                           connects=list(args["connects"]), modifications=list(args["modifications"]),
+                           tags=list(args["tags"]))
         with open(out) as handle:
             doc = json.load(handle)
         written = doc_graph(doc)
@@ -228,7 +263,7 @@ def run_impl(inp):
         elif inp["kind"] == "json":
             res = impl_json(inp["nodes"], inp["edges"], inp.get("ext", "json"))
         elif inp["kind"] == "genseq":
-            res = impl_genseq(inp["args"], inp.get("itp"))
+            res = impl_genseq(inp["args"], inp.get("itp"), cli=inp.get("entry") == "cli")
         else:
             raise common.DriverError("unknown case kind %r" % inp["kind"])
         res["ok"] = True
@@ -788,6 +823,121 @@ def run_cases(ctx, inputs):
         if not model.get("ok") and str(model.get("err", "")).startswith("protocol"):
             raise common.DriverError("driver protocol error: %s on %s" % (model.get("err"), short(inp)))
         judge(ctx, inp, impl, model, spec)
+
+
+# ------------------------------------------------------------------------------------------------ entry points
+# "A -seq list, a .txt/.fasta/.ig/.json file ... yields a residue graph": the same inputs through `gen_params` itself
+# (function and command `polyply gen_params`), the residue graph read back from the written .itp (residues in order of
+# appearance; two residues are joined iff a bond joins atoms of them), and gen_seq through the command `polyply gen_seq`.
+
+def itp_residue_graph(path):
+    section, residues, of_atom, edges = None, [], {}, set()
+    with open(path) as handle:
+        for line in handle:
+            line = line.split(";")[0].strip()
+            if not line:
+                continue
+            if line.startswith("["):
+                section = line.strip("[] \t")
+                continue
+            fields = line.split()
+            if section == "atoms":
+                res = [int(fields[2]), fields[3]]
+                if not residues or residues[-1] != res:
+                    residues.append(res)
+                of_atom[fields[0]] = len(residues) - 1
+            elif section in ("bonds", "constraints") and len(fields) >= 2:
+                a, b = of_atom.get(fields[0]), of_atom.get(fields[1])
+                if a is not None and b is not None and a != b:
+                    edges.add((min(a, b), max(a, b)))
+    return dict(residues=residues, edges=sorted(list(e) for e in edges))
+
+
+def impl_gen_params(inp, entry):
+    from polyply.src.gen_itp import gen_params
+    tmp = workdir()
+    out = fresh(tmp / "out.itp")
+    path = None
+    try:
+        if inp["kind"] == "file":
+            path = fresh(tmp / ("s." + inp["ext"]))
+            path.write_text(inp["text"])
+        if entry == "cli":
+            argv = ["gen_params", "-name", "mol", "-lib", "parmbsc1", "-o", str(out)]
+            argv += ["-seq"] + list(inp["items"]) if inp["kind"] == "seq" else ["-seqf", str(path)]
+            run_cli(argv)
+        else:
+            gen_params(name="mol", outpath=out, inpath=[], lib=["parmbsc1"],
+                       seq=list(inp["items"]) if inp["kind"] == "seq" else None, seq_file=path)
+        return dict(ok=True, **itp_residue_graph(out))
+    except Exception as err:  # pylint: disable=broad-except
+        return dict(ok=False, err=type(err).__name__ + ": " + str(err)[:200])
+    finally:
+        for item in (out, path):
+            if item is not None and item.exists():
+                item.unlink()
+
+
+def gen_entry_cases(ctx, rng, file_cases):
+    """valid DNA inputs of every format (the residue names must exist in a library for gen_params to finish)"""
+    pool = [c for c in file_cases if c.get("alpha") == "dna" and c.get("expect") == "ok" and 2 <= c.get("size", 0) <= 12
+            and c["ext"].lower() in ("fasta", "ig")]
+    picked = []
+    for fmt in ("fasta", "ig", "ig-circular"):
+        cand = [c for c in pool if c["fmt"] == fmt and (fmt != "ig-circular" or c["size"] >= 3)]
+        rng.shuffle(cand)
+        picked += cand[:ctx.budget(2, 12)]
+    inner = ["DA", "DC", "DG", "DT"]
+    for _ in range(ctx.budget(2, 10)):
+        n = rng.randint(2, 6)
+        names = [rng.choice(inner) for _ in range(n)]
+        names[0] += "5"
+        names[-1] += "3"
+        items, k = [], 0
+        while k < n:                                   # "-seq DA5:1 DC:2 ..." with runs grouped
+            j = k
+            while j + 1 < n and names[j + 1] == names[k]:
+                j += 1
+            items.append("%s:%d" % (names[k], j - k + 1))
+            k = j + 1
+        picked.append(dict(kind="seq", items=items, expect="ok", spec=dict(op="spec_linear", names=names), size=n))
+        text = "\n".join(" ".join(names[i:i + 3]) for i in range(0, n, 3)) + "\n"
+        picked.append(dict(kind="file", ext="txt", text=text, fmt="txt", expect="ok",
+                           spec=dict(op="spec_linear", names=names), size=n))
+    cases = [(c, "function") for c in picked]
+    cli = list(picked)
+    rng.shuffle(cli)
+    cases += [(c, "cli") for c in cli[:ctx.budget(2, 12)]]
+    return cases
+
+
+def run_entry_points(ctx, cases):
+    if not cases:
+        return
+    impls = [impl_gen_params(c, entry) for c, entry in cases]
+    reqs = []
+    for c, _ in cases:
+        reqs += [model_request(c), c["spec"]]
+    answers = ctx.driver.ask(reqs)
+    for i, ((c, entry), impl) in enumerate(zip(cases, impls)):
+        model, spec = answers[2 * i], answers[2 * i + 1]
+        replay = dict(c, entry="gen_params-" + entry)
+
+        def reduced(ans):
+            if not ans.get("ok"):
+                return dict(ok=False)
+            pos = {n[0]: k for k, n in enumerate(ans["graph"]["nodes"])}
+            return dict(ok=True, residues=[[n[1], n[2]] for n in ans["graph"]["nodes"]],
+                        edges=sorted(sorted([pos[e[0]], pos[e[1]]]) for e in ans["graph"]["edges"]))
+        got = dict(ok=impl["ok"], residues=impl.get("residues"), edges=impl.get("edges")) if impl["ok"] else dict(ok=False)
+        ctx.correspond("gen_params-entry-point", got, reduced(model), replay)
+        want = reduced(spec)
+        if want["ok"] and got != want:
+            ctx.oracle_fail("gen-params-entry-wrong-graph", "gen_params (%s) on %s wrote residues %s joined %s, the input "
+                            "states residues %s joined %s" % (entry, short(c), impl.get("residues", impl.get("err")),
+                                                              impl.get("edges"), want["residues"], want["edges"]), replay)
+        ctx.case(("entry", entry, json.dumps(short(c), sort_keys=True, default=str)), kind="gen_params-entry",
+                 entry_point=entry, fmt=c.get("fmt", c["kind"]))
 
 
 def run_trees(ctx):
@@ -1376,9 +1526,16 @@ def run(ctx):
     rng = ctx.rng
     inputs = corpus_cases()
     inputs += gen_seq_cases(ctx, rng)
-    inputs += gen_file_cases(ctx, rng)
+    file_cases = gen_file_cases(ctx, rng)
+    inputs += file_cases
     inputs += gen_json_cases(ctx, rng)
-    inputs += gen_genseq_cases(ctx, rng)
+    genseq_cases = gen_genseq_cases(ctx, rng)
+    inputs += genseq_cases
+    # command-level entry point of gen_seq: the same kind of cases through `polyply gen_seq` (cwd with decoys)
+    cli_pool = [c for c in genseq_cases if c.get("expect") == "ok" and c.get("size", 0) >= 2]
+    rng.shuffle(cli_pool)
+    inputs += [dict(c, entry="cli") for c in cli_pool[:ctx.budget(3, 20)]]
+    entry_cases = gen_entry_cases(ctx, rng, file_cases)
     # round 5: exhaustive enumeration of the small finite domains + the -from_file strings
     exhaustive = gen_exhaustive_file_cases(ctx) + gen_dispatch_cases()
     ctx.tally(exhaustive_file_cases=len(exhaustive))
@@ -1387,6 +1544,7 @@ def run(ctx):
     run_trees(ctx)
     run_dispatch_table(ctx)
     run_cases(ctx, inputs)
+    run_entry_points(ctx, entry_cases)
     # round 5: MacroString / _add_edges / _apply_termini_modifications / _tag_nodes / _identify_residues /
     # _parse_plain driven directly
     run_direct(ctx, gen_macro_cases(ctx, rng) + gen_identify_cases() + gen_direct_cases(ctx, rng))
@@ -1405,7 +1563,10 @@ def replay(ctx, data):
                 inputs.append(item["input"])
     else:
         inputs = [inp]
-    run_cases(ctx, [i for i in inputs if i.get("kind") in ("seq", "file", "json", "genseq")])
+    run_cases(ctx, [i for i in inputs if i.get("kind") in ("seq", "file", "json", "genseq")
+                    and not str(i.get("entry", "")).startswith("gen_params-")])
+    run_entry_points(ctx, [({k: v for k, v in i.items() if k != "entry"}, i["entry"].split("-", 1)[1]) for i in inputs
+                           if str(i.get("entry", "")).startswith("gen_params-")])
     direct = [i for i in inputs if i.get("kind") in ("add_edges", "apply_mods", "apply_tags", "macro", "identify", "parse_plain")]
     for i in direct:
         if i.get("kind") == "macro" and i.get("rendered"):
